@@ -169,20 +169,42 @@ func TestProp_CSSParser(t *testing.T) {
 	})
 }
 
-var dialects = [][2]string{{}, html.GoTemplate, html.EJSTemplate, html.PHPTemplate, html.HandlebarsTemplate, html.MustacheTemplate, html.ASPTemplate}
+var dialects = [][2]string{{}, html.GoTemplate, html.EJSTemplate, html.PHPTemplate, html.HandlebarsTemplate, html.MustacheTemplate, html.ASPTemplate,
+	// delimiters of the caller's own, and the pair of empty strings (the zero value of a configuration that is passed on as it is)
+	{"[[", "]]"}, {"<<", ">>"}, {"{", "}"}, {"<!--#", "-->"}, {"", ""}, {"", ""}}
 
 func TestProp_HTMLLexer(t *testing.T) {
-	ev.Describe("html.Lexer", "hostile HTML fragment strings and mutated test literals x {plain, each of the six template dialect variables}; Text/AttrKey/AttrVal read after every token; oracle as above; non-trivial as above")
+	ev.Describe("html.Lexer", "hostile HTML fragment strings and mutated test literals x {plain, each of the six template dialect variables, four delimiter pairs of the caller's own, the pair of empty strings}, lexed once under a one-minute watchdog first; Text/AttrKey/AttrVal read after every token; oracle as above; non-trivial as above")
 	ev.Check(t, 15000, func(t *rapid.T) {
 		src := genInput(t, "html")
 		dl := rapid.SampledFrom(dialects).Draw(t, "dialect")
 		in := parse.NewInputBytes(append([]byte(nil), src...))
 		var l *html.Lexer
-		if dl[0] == "" {
-			l = html.NewLexer(in)
-		} else {
-			l = html.NewTemplateLexer(in, dl)
+		plain := dl[0] == "" && rapid.Bool().Draw(t, "plainctor")
+		mk := func(x *parse.Input) *html.Lexer {
+			if plain {
+				return html.NewLexer(x)
+			}
+			return html.NewTemplateLexer(x, dl)
 		}
+		// every call returns: the whole input is lexed once under a watchdog first (a call that does not come back within
+		// a minute on an input of some hundred bytes never will)
+		done := make(chan struct{})
+		go func() {
+			defer func() { recover(); close(done) }()
+			pl := mk(parse.NewInputBytes(append([]byte(nil), src...)))
+			for i := 0; i < 4*len(src)+20; i++ {
+				if tt, _ := pl.Next(); tt == html.ErrorToken && pl.Err() == io.EOF {
+					break
+				}
+			}
+		}()
+		select {
+		case <-done:
+		case <-time.After(60 * time.Second):
+			t.Fatalf("html lexer with the delimiters %q on %q: a call of Next does not return", dl, src)
+		}
+		l = mk(in)
 		d := driver{"html.Lexer" + dl[0], func() (bool, [][]byte) {
 			tt, data := l.Next()
 			return tt == html.ErrorToken, [][]byte{data, l.Text(), l.AttrKey(), l.AttrVal()}
